@@ -75,6 +75,16 @@ var soupText = []string{"text", " ", "a &amp; b", "&lt;x&gt;", "é中", "1 < 2",
 func soup(rng *rand.Rand) string {
 	var b strings.Builder
 	b.WriteString([]string{"<!DOCTYPE html>", "<!doctype html>\n", "<!DOCTYPE html PUBLIC \"-//W3C//DTD HTML 4.01//EN\">"}[rng.Intn(3)])
+	// what a charset-sniffing reader would act on (the bytes are UTF-8 and must be taken as such, as html.Parse does):
+	// a meta element naming another charset, or more than 1024 ASCII bytes before the first non-ASCII character
+	switch rng.Intn(8) {
+	case 0:
+		b.WriteString(`<meta charset="windows-1252">`)
+	case 1:
+		b.WriteString(`<meta http-equiv="Content-Type" content="text/html; charset=iso-8859-1">`)
+	case 2:
+		b.WriteString("<!--" + strings.Repeat("pad ", 300) + "-->")
+	}
 	var open []string
 	n := 3 + rng.Intn(25)
 	for i := 0; i < n; i++ {
